@@ -101,6 +101,7 @@ func runWorker(args []string) int {
 	if *only == 0 {
 		r.deadline = time.Now().Add(budget(p, *tier))
 	}
+	r.knownRE = compileKnown(loadKnown(id))
 	stall := p.StallSeconds
 	if stall == 0 {
 		stall = 120
@@ -142,7 +143,31 @@ func loadKnown(id string) []knownFinding {
 	return out
 }
 
+// compileKnown returns one regexp per known-findings entry (nil for entries
+// that do not suppress anything, i.e. status "fixed").
+func compileKnown(known []knownFinding) []*regexp.Regexp {
+	var res []*regexp.Regexp
+	for _, k := range known {
+		if k.Status != "known" {
+			res = append(res, nil)
+			continue
+		}
+		re, err := regexp.Compile(k.Key)
+		if err != nil {
+			re = regexp.MustCompile(regexp.QuoteMeta(k.Key))
+		}
+		res = append(res, re)
+	}
+	return res
+}
+
 func merge(dst *Result, src *Result) {
+	for i, c := range src.KnownHits {
+		if dst.KnownHits == nil {
+			dst.KnownHits = map[int]int64{}
+		}
+		dst.KnownHits[i] += c
+	}
 	dst.Evaluations += src.Evaluations
 	dst.Nontrivial += src.Nontrivial
 	dst.States += src.States
@@ -250,22 +275,19 @@ func runParent(args []string) int {
 		engineErr = total.EngineError
 	}
 
-	// known findings
+	// known findings: workers classify (and count) them; violations found by
+	// the parent itself (worker deaths) are classified here.
 	known := loadKnown(id)
-	var res []*regexp.Regexp
-	for _, k := range known {
-		re, err := regexp.Compile(k.Key)
-		if err != nil {
-			re = regexp.MustCompile(regexp.QuoteMeta(k.Key))
-		}
-		res = append(res, re)
-	}
+	res := compileKnown(known)
 	knownHit := map[int]int64{}
+	for i, c := range total.KnownHits {
+		knownHit[i] += c
+	}
 	var fresh []Violation
 	for _, v := range total.Violations {
 		matched := false
-		for i, k := range known {
-			if k.Status == "known" && res[i].MatchString(v.Key) {
+		for i := range known {
+			if res[i] != nil && res[i].MatchString(v.Key) {
 				knownHit[i]++
 				matched = true
 				break
@@ -275,10 +297,11 @@ func runParent(args []string) int {
 			fresh = append(fresh, v)
 		}
 	}
-	// NViolations counts all (incl. those beyond the per-worker cap); if the cap
-	// was hit we cannot classify the overflow, so they count as fresh unless
-	// every recorded one was known.
+	// violations beyond the per-worker recording cap are all fresh ones
 	overflow := total.NViolations - int64(len(total.Violations))
+	if overflow < 0 {
+		overflow = 0
+	}
 
 	exhaustive := !total.Cut
 	bound := ""
@@ -412,7 +435,7 @@ func runParent(args []string) int {
 		fmt.Printf("KNOWN-FINDING: property=%s %s (%d cases this run)\n", id, known[i].What, c)
 	}
 	code := 0
-	if len(fresh) > 0 || (overflow > 0 && len(fresh) > 0) {
+	if len(fresh) > 0 {
 		os.MkdirAll(filepath.Join(verifDir, "replays"), 0o755)
 		seen := map[string]bool{}
 		for _, v := range fresh {
